@@ -158,8 +158,12 @@ def variants(expr: ast.AST, at: ast.AST, depth: int = 0,
             src(expr.func).endswith("unwrap_node_coords") and expr.args:
         out |= variants(expr.args[0], at, depth + 1, strict)
     elif isinstance(expr, ast.IfExp):
-        out |= variants(expr.body, at, depth + 1, strict)
-        out |= variants(expr.orelse, at, depth + 1, strict)
+        # a conditional denotes a value only if both arms do (the unwrap
+        # idiom `x.value if isinstance(x, T) else x` does: `.value` of x is
+        # a variant of x)
+        vb = variants(expr.body, at, depth + 1, strict)
+        vo = variants(expr.orelse, at, depth + 1, strict)
+        out |= (vb & vo)
     elif isinstance(expr, ast.Attribute) and expr.attr == "value":
         out |= variants(expr.value, at, depth + 1, strict)
     elif isinstance(expr, ast.Name):
